@@ -1,4 +1,4 @@
-import ShmVerif.Proof.FreeListInit
+import ShmVerif.Proof.FreeListConc
 /-!
   C02 — the allocator neither loses nor duplicates buffers.
 
@@ -9,7 +9,12 @@ import ShmVerif.Proof.FreeListInit
   * `c02_failed_alloc_consumes_nothing` : a pop that fails (class down to its last slot) leaves every shared word unchanged.
   * `c02_aba_witness` : the unrestricted concurrent statement is FALSE of the model (and the code, finding F1): the ABA
       schedule followed by everybody recycling gives size = cap = 4 but a walk that visits 2 slots.
-  The concurrent statement restricted to ABA-free interleavings is NOT proved: the claim is partial.
+  * `c02_conservation_noaba`, `c02_quiescent_noaba`, `c02_quiescent_full_noaba` : the same for EVERY interleaving (one
+      step = one shared-memory access, any number of threads / slots / operations) in which no head CAS succeeds on a
+      stale snapshot: at every step free queue + owned slots are exactly the `n` slots and `size` is the queue length
+      minus the operations in flight; whenever nobody is inside pop/push, `size` = length of the walk from `head`, the
+      walk ends at `tail`, walk + held slots are exactly the `n` slots; with everything recycled the walk is all of them.
+  Together with the witness: losing or duplicating a buffer REQUIRES the stale-head CAS of finding F1.
 -/
 namespace Props.C02
 open FreeListC
@@ -89,6 +94,59 @@ set_option maxRecDepth 100000 in
 example :
     let s := seqRun (prime (init 3 [[.pop, .pop, .pop, .push 0, .push 0]])) [0, 0, 0, 0, 0]
     s.ths.flatMap owned = [] ∧ s.size = 3 ∧ walk 4 s s.head = [2, 0, 1] ∧ s.tail = 1 := by
+  decide
+
+/-- conservation at every step of every interleaving without a stale-head CAS -/
+theorem c02_conservation_noaba (n : Nat) (hn : 0 < n) (progs : List (List Op)) (sched : List Nat) :
+    let s := run (prime (init n progs)) sched
+    s.aba = false →
+    ∃ Q, Q.head? = some s.head ∧ Q.getLast? = some s.tail ∧ (Q ++ s.ths.flatMap ownedC).Perm (List.range n) ∧
+      s.size + (s.ths.countP resv : Int) + (s.ths.countP linking : Int) = (Q.length : Int) := by
+  intro s ha
+  obtain ⟨Q, I, J⟩ := run_cq n sched _ _ (cinv_init n hn progs) (qinv_init n hn progs) ha
+  exact ⟨Q, I.head, I.last, I.partition, J.size⟩
+
+/-- quiescence (nobody inside pop / push) after any such interleaving: `size` is the number of slots the walk from
+    `head` (computeFreeSliceNum's walk) visits, the walk ends at `tail`, and walk + held slots are exactly the `n` slots -/
+theorem c02_quiescent_noaba (n : Nat) (hn : 0 < n) (progs : List (List Op)) (sched : List Nat) :
+    let s := run (prime (init n progs)) sched
+    s.aba = false → Quiet s →
+    ∃ free, walk (n + 1) s s.head = free ∧ s.size = (free.length : Int) ∧ free.getLast? = some s.tail ∧
+      (free ++ s.ths.flatMap (·.held)).Perm (List.range n) := by
+  intro s ha hq
+  obtain ⟨Q, I, J⟩ := run_cq n sched _ _ (cinv_init n hn progs) (qinv_init n hn progs) ha
+  obtain ⟨hc, hs, hp⟩ := quiet_chain I J hq
+  refine ⟨Q, ?_, hs, I.last, hp⟩
+  have hlen : Q.length ≤ n := by
+    have := hp.length_eq
+    simp only [List.length_append, List.length_range] at this
+    omega
+  cases hQ : Q with
+  | nil => rw [hQ] at hc; simp [Chain] at hc
+  | cons a rest =>
+    have ha0 : s.head = a := by have := I.head; rw [hQ] at this; simpa using this.symm
+    rw [hQ] at hc hlen
+    rw [ha0]
+    exact walk_chain s rest a _ hc (by simp only [List.length_cons] at hlen; omega)
+
+/-- … and when every buffer has been recycled the free list is full again: `size = n`, the walk visits every slot once -/
+theorem c02_quiescent_full_noaba (n : Nat) (hn : 0 < n) (progs : List (List Op)) (sched : List Nat) :
+    let s := run (prime (init n progs)) sched
+    s.aba = false → Quiet s → (∀ th ∈ s.ths, th.held = []) →
+    s.size = (n : Int) ∧ (walk (n + 1) s s.head).Perm (List.range n) := by
+  intro s ha hq hh
+  obtain ⟨free, hw, hs, _, hp⟩ := c02_quiescent_noaba n hn progs sched ha hq
+  have e : s.ths.flatMap (·.held) = [] := by
+    rw [List.flatMap_eq_nil_iff]; exact hh
+  rw [e, List.append_nil] at hp
+  refine ⟨?_, hw ▸ hp⟩
+  rw [hs, hp.length_eq, List.length_range]
+
+-- non-vacuity: an interleaved, ABA-free run that ends quiescent with everything recycled
+set_option maxRecDepth 100000 in
+example :
+    let s := run (prime (init 3 [[.pop, .push 0], [.pop, .push 0]])) ((List.replicate 30 [0, 1]).flatten)
+    s.aba = false ∧ (∀ th ∈ s.ths, th.pc = .idle) ∧ (∀ th ∈ s.ths, th.held = []) ∧ s.size = 3 := by
   decide
 
 end Props.C02
